@@ -50,6 +50,26 @@ fn load_file(bytes: &[u8]) -> Obs {
   match r { Ok((acc, err)) => Obs { accepted: acc, panic: None, max_req, peak, err }, Err(p) => Obs { accepted: false, panic: Some(p), max_req, peak, err: None } }
 }
 
+/// literal forms for the constant-value family (static; every constant kind the compiler encodes, with the shapes and lengths encoders distinguish)
+fn const_literals() -> Vec<String> {
+  let mut v: Vec<String> = Vec::new();
+  for s in ["\"\"", "\"a\"", "\"é✓\"", "\"a b c d e f g h i j k l m n o p q r s t u v w x y z 0123456789\"", "true", "false", "1", "-2.5", "7u8", "300u16", "70000u32", "5000000000u64", "7<i8>", "-300<i16>", "-70000<i32>", "-5000000000<i64>", "2.5<f32>", "1/2", "-3/4", "1+2i", "3.5-1.5i", ":A", "_"] { v.push(s.to_string()); }
+  let kinds: [(&str, fn(usize) -> String); 8] = [("f64", |i| format!("{}.5", i)), ("u8", |i| format!("{}u8", i)), ("i64", |i| format!("{}<i64>", i)), ("bool", |i| (if i % 2 == 0 { "true" } else { "false" }).to_string()), ("string", |i| format!("\"s{}\"", i)), ("u16", |i| format!("{}u16", 300 + i)), ("f32", |i| format!("{}.25<f32>", i)), ("i16", |i| format!("{}<i16>", i))];
+  for (_, f) in kinds.iter() { for (r, c) in [(1, 1), (1, 2), (2, 1), (1, 3), (3, 1), (2, 2), (2, 3), (3, 2), (3, 3), (1, 5), (5, 1), (2, 5), (4, 4)] {
+    let rows: Vec<String> = (0..r).map(|i| (0..c).map(|j| f(1 + i * c + j)).collect::<Vec<_>>().join(" ")).collect();
+    v.push(format!("[{}]", rows.join("; ")));
+  } }
+  // tables r x c with mixed column kinds
+  let cols = [("a", "f64"), ("b", "u8"), ("c", "string"), ("d", "bool")];
+  for r in 1..=4usize { for c in 1..=4usize {
+    let head: Vec<String> = cols[..c].iter().map(|(n, k)| format!("{}<{}>", n, k)).collect();
+    let rows: Vec<String> = (0..r).map(|i| cols[..c].iter().enumerate().map(|(j, (_, k))| match *k { "f64" => format!("{}.5", i + j), "u8" => format!("{}", 10 * i + j), "string" => format!("\"r{}\"", i), _ => (if i % 2 == 0 { "true" } else { "false" }).to_string() }).collect::<Vec<_>>().join(" ")).collect();
+    v.push(format!("|{}| {} |", head.join(" "), rows.join(" | ")));
+  } }
+  for s in ["{1, 2, 3}", "{\"a\", \"b\"}", "{}", "{1u8, 2u8}", "{true}", "{1/2, 1/3}", "(1, \"a\", true)", "(1, (2, 3))", "(1u8, 2.5)", "{a: 1, b: \"x\"}", "{a: [1 2 3], b: true}", "{\"a\": 1, \"b\": 2}", "{1: \"x\"}", "[\"\" \"a\"]", "[1/2 3/4]", "[1+2i 3+4i]", "{(1, 2), (3, 4)}", "{{1, 2}, {3}}", "[:A :B]"] { v.push(s.to_string()); }
+  v
+}
+
 fn panic_site(p: &str) -> String {
   // "message @ file:line" -> file basename:line (value-free)
   let loc = p.rsplit(" @ ").next().unwrap_or("");
@@ -79,6 +99,8 @@ impl Prop for C07 {
   fn gen(&self, tier: Tier, seed: u64) -> Vec<Case> {
     let progs = super::c06::gen_programs(tier, seed, 250, 2500);
     let mut out = Vec::new();
+    // constant values: one literal definition per program; the value the interpreter holds for x must be among the decoded constants
+    for (i, l) in const_literals().iter().enumerate() { out.push(Case { id: format!("family=constvalue;lit={}", i), cell: "family=constvalue".into(), input: json!({"src": format!("x := {}", l), "family": "constvalue", "salt": i}) }); }
     let stride = if tier == Tier::Quick { 8 } else { 4 };
     for (i, (id, p)) in progs.iter().enumerate() {
       for fam in FAMILIES.iter() {
@@ -123,6 +145,14 @@ impl Prop for C07 {
       None
     };
     match fam {
+      "constvalue" => {
+        let want = match (crate::sess::Sess { intrp: a }).get("x") { Some(v) => v, None => return Outcome::trivial().tag("constvalue:no-symbol") };
+        let p = match guarded(|| ParsedProgram::from_bytes(&bytes)) { Ok(Ok(p)) => p, Ok(Err(e)) => return Outcome::violated("emitted-file-rejected", format!("`{}`: {}", src, e.kind_name())), Err(p) => return Outcome::violated(&format!("loader-panic:{}", panic_site(&p)), p) };
+        let vals = match guarded(|| p.decode_const_entries()) { Ok(Ok(v)) => v, Ok(Err(e)) => return Outcome::violated(&format!("emitted-constants-rejected:{}:{}", e.kind_name(), match &want { CVal::Tuple(_) => "tuple".to_string(), CVal::Record(_) => "record".to_string(), CVal::Atom(_) => "atom".to_string(), CVal::Map(..) => "map".to_string(), w => w.kind_str().chars().filter(|c| !c.is_ascii_digit()).collect::<String>() }), format!("decode_const_entries fails on the emitted file of `{}`", src)), Err(pn) => return Outcome::violated(&format!("loader-panic:{}", panic_site(&pn)), format!("decode_const_entries on the emitted file of `{}`: {}", src, pn)) };
+        let got: Vec<CVal> = vals.iter().map(|v| canon(v)).collect();
+        if !got.iter().any(|g| *g == want) { return Outcome::violated(&format!("decoded-constant-differs:{}", want.kind_str().chars().filter(|c| !c.is_ascii_digit()).collect::<String>()), format!("`{}`: the interpreter holds {} but the decoded constants are {}", src, want.show(), got.iter().map(|g| g.show()).collect::<Vec<_>>().join(" ; "))); }
+        return Outcome::held().tag(format!("constvalue:{}", want.kind_str().chars().filter(|c| !c.is_ascii_digit()).collect::<String>()));
+      }
       "roundtrip" => {
         let p = match guarded(|| ParsedProgram::from_bytes(&bytes)) { Ok(Ok(p)) => p, Ok(Err(e)) => return Outcome::violated("emitted-file-rejected", format!("`{}`: {}", src, e.kind_name())), Err(p) => return Outcome::violated(&format!("loader-panic:{}", panic_site(&p)), p) };
         let back = match guarded(|| p.to_bytes()) { Ok(Ok(b)) => b, Ok(Err(e)) => return Outcome::violated("reencode-error", e.kind_name()), Err(pn) => return Outcome::violated(&format!("encoder-panic:{}", panic_site(&pn)), pn) };
